@@ -65,6 +65,29 @@ func roundTrip(c Case) *pbt.Result {
 		if !bytes.Equal(re, got) {
 			return pbt.Fail("re-encoding the decoded value gives %d bytes, original encoding has %d", len(re), len(got))
 		}
+		// the decoded value owns its content: the receive buffer is reused for the next message
+		for i := range buf {
+			buf[i] = 0xA5
+		}
+		if view2, err := gval.FromGolib(d); err != nil || ref.DiffValue(v, view2, "$") != "" {
+			return pbt.Fail("the decoded value changed when the buffer it was decoded from was overwritten (it shares memory with its input) at %s", ref.DiffValue(v, view2, "$"))
+		}
+	}
+	// the map-typed entry points used by the packs
+	if v.T == ref.TMap {
+		o := wio.NewDataOutputX()
+		value.WriteMapValue(o, g.(*value.MapValue))
+		if mb := o.ToByteArray(); !bytes.Equal(mb, want) {
+			return pbt.Fail("WriteMapValue gives %x…, WriteValue / the reference %x… (%d vs %d bytes)", tailAt(mb, 0), tailAt(want, 0), len(mb), len(want))
+		}
+		in := wio.NewDataInputX(append([]byte(nil), want...))
+		m := value.ReadMapValue(in)
+		if m == nil || in.Available() != 0 {
+			return pbt.Fail("ReadMapValue returned %v and left %d bytes of a %d-byte map encoding", m, in.Available(), len(want))
+		}
+		if view, err := gval.FromGolib(m); err != nil || ref.DiffValue(v, view, "$") != "" {
+			return pbt.Fail("ReadMapValue decodes a different map: %s", ref.DiffValue(v, view, "$"))
+		}
 	}
 	// the reference decoder agrees
 	r := ref.NewR(got)
@@ -430,3 +453,130 @@ var specTogether = pbt.Register(pbt.Spec[TogetherCase]{
 })
 
 func TestValuesAliveTogether(t *testing.T) { specTogether.Check(t) }
+
+// ---- encode, change something inside, encode again -------------------------------------------------------
+
+type ChangeCase struct {
+	V     *ref.V `json:"v"`
+	Steps []int  `json:"steps"` // each step picks a node of the value (index into a pre-order walk, modulo) and changes it
+}
+
+// nodes lists every value reachable inside g (pre-order), g included.
+func nodes(g value.Value, out *[]value.Value) {
+	*out = append(*out, g)
+	switch x := g.(type) {
+	case *value.ListValue:
+		for i := 0; i < x.Size(); i++ {
+			nodes(x.Get(i), out)
+		}
+	case *value.MapValue:
+		for en := x.Keys(); en.HasMoreElements(); {
+			nodes(x.Get(en.NextString()), out)
+		}
+	case *value.IntMapValue:
+		for en := x.Keys(); en.HasMoreElements(); {
+			nodes(x.Get(en.NextInt()), out)
+		}
+	}
+}
+
+// changeNode modifies one node in place through its public fields / methods; it reports what it did.
+func changeNode(n value.Value, k int) string {
+	switch x := n.(type) {
+	case *value.MapValue:
+		if k%2 == 0 {
+			x.NewList(fmt.Sprintf("added%d", k)).AddLong(int64(k))
+			return "map.NewList"
+		}
+		x.Put(fmt.Sprintf("added%d", k), value.NewDecimalValue(int64(k)))
+		return "map.Put"
+	case *value.IntMapValue:
+		x.Put(int32(700000+k), value.NewTextValue("added"))
+		return "intmap.Put"
+	case *value.ListValue:
+		if k%2 == 0 || x.Size() == 0 {
+			x.Add(value.NewDecimalValue(int64(k)))
+			return "list.Add"
+		}
+		x.Set(k%x.Size(), value.NewTextValue("set"))
+		return "list.Set"
+	case *value.DecimalValue:
+		x.Val += int64(k) + 1
+		return "decimal.Val"
+	case *value.TextValue:
+		x.Val += "+"
+		return "text.Val"
+	case *value.BoolValue:
+		x.Val = !x.Val
+		return "bool.Val"
+	case *value.BlobValue:
+		x.Val = append(append([]byte(nil), x.Val...), byte(k))
+		return "blob.Val"
+	}
+	return ""
+}
+
+var specChange = pbt.Register(pbt.Spec[ChangeCase]{
+	Prop: "C02", Name: "encode-change-encode",
+	Rule:  "a generated container value (depth <= 4) is encoded; then 1-4 times one node anywhere inside it (a nested map, list, int map or scalar; chosen by pre-order index) is changed in place through the public API (NewList, Put, Add, Set, or the scalar's Val field) and the whole value is encoded again; every encoding must equal the reference encoding of what the public accessors show at that moment, and must decode to it; non-trivial = at least one change below the top level; distinct by case",
+	Quick: 2500, Thorough: 150000,
+	Draw: func(t *rapid.T) ChangeCase {
+		ty := rapid.SampledFrom([]byte{ref.TMap, ref.TMap, ref.TList, ref.TIntMap}).Draw(t, "type")
+		return ChangeCase{V: gval.DrawOfType(t, gval.Opts{MaxDepth: 4, MaxWidth: 4}, ty, 4, true),
+			Steps: rapid.SliceOfN(rapid.IntRange(0, 200), 1, 4).Draw(t, "steps")}
+	},
+	Run: func(c ChangeCase) *pbt.Result {
+		g := gval.ToGolib(c.V)
+		deep := 0
+		classes := map[string]bool{}
+		check := func(when string) *pbt.Result {
+			view, err := gval.FromGolib(g)
+			if err != nil {
+				return pbt.Fail("%s: the value cannot be walked: %v", when, err)
+			}
+			want := ref.ValueBytes(view)
+			got := encodeGolib(g)
+			if !bytes.Equal(got, want) {
+				k := 0
+				for k < len(got) && k < len(want) && got[k] == want[k] {
+					k++
+				}
+				return pbt.Fail("%s: WriteValue differs from the reference encoding of what the accessors show, at offset %d (%d vs %d bytes; golib …%x, reference …%x)", when, k, len(got), len(want), tailAt(got, k), tailAt(want, k))
+			}
+			d := value.ReadValue(wio.NewDataInputX(append([]byte(nil), got...)))
+			dv, err := gval.FromGolib(d)
+			if err != nil || ref.DiffValue(view, dv, "$") != "" {
+				return pbt.Fail("%s: the encoding decodes to something else at %s", when, ref.DiffValue(view, dv, "$"))
+			}
+			return nil
+		}
+		if r := check("first encoding"); r != nil {
+			return r
+		}
+		hist := ""
+		for i, st := range c.Steps {
+			var ns []value.Value
+			nodes(g, &ns)
+			idx := st % len(ns)
+			what := changeNode(ns[idx], st)
+			if what == "" {
+				continue
+			}
+			if idx > 0 {
+				deep++
+			}
+			classes[what] = true
+			hist += " " + what
+			if r := check(fmt.Sprintf("after change %d (%s; node %d of %d)", i+1, hist, idx, len(ns))); r != nil {
+				return r
+			}
+		}
+		var cl []string
+		for k := range classes {
+			cl = append(cl, k)
+		}
+		return &pbt.Result{NT: deep > 0, Classes: cl}
+	},
+})
+
+func TestEncodeChangeEncode(t *testing.T) { specChange.Check(t) }
